@@ -22,17 +22,17 @@ F_Lens == 1..8
 
 RECURSIVE SortedSeq(_)
 SortedSeq(T) == IF T = {} THEN <<>> ELSE LET m == SetMin(T) IN <<m>> \o SortedSeq(T \ {m})
-Zeros(k) == [i \in 1..k |-> CZero]
+Zeros(k) == Mat([i \in 1..k |-> CZero])
 Ints(x) == [i \in 1..Len(x) |-> <<ColRe(n, c, i - 1), ColIm(n, c, i - 1)>>]
 
 TimeRec ==
   LET x == Col(n, c)
       Z == DeclZeroE(n, q)
       all == Cardinality(Z) = n
-      yc == Mat(IF all THEN Zeros(n) ELSE IF q = 0 THEN x ELSE ZeroAt(Mat(Delay(x, q)), Z))
-      yr == Mat(IF all THEN Zeros(n) ELSE IF q = 0 THEN RealPart(x) ELSE ZeroAt(Mat(DelayReal(x, q)), Z))
+      yc == IF all THEN Zeros(n) ELSE IF q = 0 THEN x ELSE ZeroAt(Delay(x, q), Z)
+      yr == IF all THEN Zeros(n) ELSE IF q = 0 THEN RealPart(x) ELSE ZeroAt(DelayReal(x, q), Z)
   IN [mode |-> "time", N |-> n, c |-> c, q |-> q, x |-> Ints(x), zero |-> SortedSeq(Z),
-      yc |-> yc, yr |-> [i \in 1..n |-> yr[i].re]]
+      yc |-> yc, yr |-> Mat([i \in 1..n |-> yr[i].re])]
 
 \* the bin a whole non-zero shift may or may not clear (float product just beyond the integer)
 FreeBin(k, qq) == IF qq = 0 \/ qq % 4 # 0 THEN {}
@@ -42,8 +42,8 @@ FreqRec ==
   LET x == Col(n, c)
       Z == DeclZeroE(n, q)                 \* positions of the fftshift'ed spectrum
       all == Cardinality(Z) = n
-      X == Mat(IF all THEN Zeros(n) ELSE ZeroBins(Mat(FDft(Mat(Mix(x, q)))), Z))
-      y == Mat(IF all THEN Zeros(n) ELSE IF q = 0 THEN x ELSE IDft(X))
+      X == IF all THEN Zeros(n) ELSE ZeroBins(FDftM(Mix(x, q)), Z)
+      y == IF all THEN Zeros(n) ELSE IF q = 0 THEN x ELSE IDftM(X)
   IN [mode |-> "freq", N |-> n, c |-> c, q |-> q, x |-> Ints(x),
       zero |-> SortedSeq({NatIdx(j, n) : j \in Z}),
       free |-> SortedSeq({NatIdx(j, n) : j \in FreeBin(n, q)}),
